@@ -10,7 +10,7 @@ import (
 	"github.com/fido-device-onboard/go-fdo/protocol"
 )
 
-type eatFaults struct{ nonce, guid, ueidType, noNonce, nonceType bool }
+type eatFaults struct{ nonce, guid, ueidType, noNonce, nonceType, nonceEmpty, noncePrefix bool }
 
 // eat encodes the claims map of a device attestation token: {10: nonce, 256: 0x01||GUID, -257: fdo claim}.
 func eat(guid protocol.GUID, nonce protocol.Nonce, fdoClaim any, f eatFaults) []byte {
@@ -27,6 +27,12 @@ func eat(guid protocol.GUID, nonce protocol.Nonce, fdoClaim any, f eatFaults) []
 	m := map[int64]any{256: ueid}
 	if !f.noNonce {
 		m[10] = nonce[:]
+	}
+	if f.nonceEmpty {
+		m[10] = []byte{}
+	}
+	if f.noncePrefix { // the first half of the right nonce
+		m[10] = nonce[:8]
 	}
 	if f.nonceType { // the right nonce, but not as a byte string
 		m[10] = []any{nonce[:]}
